@@ -82,6 +82,13 @@ def canon_place(B, pl, depth=0):
         if isinstance(e, dict) and 'ty' in e:
             pty = e['ty']
         break
+    if base[0] == 'call' and str(base[1]).endswith('bool>::then_some') and projs[:2] == ['as:Some', '0']:
+        t_ = B.blocks[base[2]]['t']
+        if len(t_['args']) > 1:
+            inner = canon(B, t_['args'][1], depth + 1)
+            if len(projs) == 2:
+                return inner
+            base, projs = inner, projs[2:]
     if base[0] == 'try' and projs[:2] == ['as:Continue', '0']:
         base = ('payload', base[1])
         projs = projs[2:]
@@ -251,6 +258,21 @@ class Ranges:
                     ok_edge = ('else' not in vals and vals == [0])
                     if tr and ok_edge:
                         out.append((canon(B, d[3]['args'][0]), tr[0], tr[1]))
+        # `cond.then_some(v)` / `cond.then(|| v)`: Some exactly when cond holds
+        if sd and 'core::option::Option<' in sd[1] and not sd[0].get('p'):
+            d = B.single_def(sd[0]['l'])
+            # through plain copies (an inlined helper hands its result over by a move)
+            for _ in range(4):
+                if d is not None and d[0] == 's' and d[3]['rv']['k'] == 'use' and d[3]['rv']['op'].get('k') in ('cp', 'mv') and not d[3]['rv']['op']['pl'].get('p'):
+                    d = B.single_def(d[3]['rv']['op']['pl']['l'])
+                    continue
+                break
+            if d is not None and d[0] == 't':
+                g, r = callee_of(d[3])
+                nm = r or g or ''
+                if (nm.endswith('bool>::then_some') or nm.endswith('bool>::then')) and d[3]['args'] and 'else' not in vals and len(vals) == 1:
+                    src_b, neg = B.bool_source(d[3]['args'][0])
+                    out += self._bool_facts(src_b, (vals[0] == 1) != neg, src)
         return out
 
     def _bool_facts(self, source, truth, at_bb):
@@ -496,14 +518,21 @@ class Ranges:
         for (src, vals, dst) in dominating_edges(B, bb):
             t = B.blocks[src]['t']
             if t['dty'] != 'bool':
-                continue
-            sb = B.switch_bool_edges(src)
-            if sb is None:
-                continue
-            source, t_t, f_t = sb
-            if t_t == f_t or source[0] != 'bin':
-                continue
-            truth = (dst == t_t)
+                # `cond.then_some(v)`: on the Some edge of a match on its result, cond held
+                ts = self._then_some_source(src, vals)
+                if ts is None:
+                    continue
+                source, truth = ts
+                if source[0] != 'bin':
+                    continue
+            else:
+                sb = B.switch_bool_edges(src)
+                if sb is None:
+                    continue
+                source, t_t, f_t = sb
+                if t_t == f_t or source[0] != 'bin':
+                    continue
+                truth = (dst == t_t)
             rv = source[2]
             op = rv['op']
             if op not in ('Lt', 'Le', 'Gt', 'Ge', 'Eq'):
@@ -528,6 +557,27 @@ class Ranges:
                 out.add((cb, '<=', ca))
         self._rels[bb] = out
         return out
+
+    def _then_some_source(self, src, vals):
+        """(bool source, truth) when block src switches on the discriminant of `cond.then_some(v)` / `cond.then(..)`"""
+        B = self.B
+        sd = B.switch_on_discr(src)
+        if not (sd and 'core::option::Option<' in sd[1] and not sd[0].get('p')) or 'else' in vals or len(vals) != 1:
+            return None
+        d = B.single_def(sd[0]['l'])
+        for _ in range(4):
+            if d is not None and d[0] == 's' and d[3]['rv']['k'] == 'use' and d[3]['rv']['op'].get('k') in ('cp', 'mv') and not d[3]['rv']['op']['pl'].get('p'):
+                d = B.single_def(d[3]['rv']['op']['pl']['l'])
+                continue
+            break
+        if d is None or d[0] != 't':
+            return None
+        g, r = callee_of(d[3])
+        nm = r or g or ''
+        if not (nm.endswith('bool>::then_some') or nm.endswith('bool>::then')) or not d[3]['args']:
+            return None
+        src_b, neg = B.bool_source(d[3]['args'][0])
+        return src_b, (vals[0] == 1) != neg
 
     # ---- knowledge about parser combinators ---------------------------------------
     def _call_of_payload(self, c):
